@@ -115,3 +115,23 @@ def compile_many(texts, auto_link=True, with_functions=False, workers=14):
     ctx = mp.get_context('fork')
     with ctx.Pool(workers) as pool:
         return pool.map(_compile_job, [(t, auto_link, with_functions) for t in texts], chunksize=8)
+
+
+def symbols_repr(text):
+    """canonical text of get_symbols(text) (or the failure)"""
+    try:
+        out = io.StringIO()
+        with contextlib.redirect_stdout(out):
+            syms = Cnl2asp(text).get_symbols()
+        return ('ok', norm_uuid(repr([(s.predicate, repr(s.keys), repr(s.attributes), s.symbol_type.name) for s in syms])))
+    except Exception as e:  # noqa
+        return ('err', type(e).__name__, str(e)[:200])
+
+
+def symbols_many(texts, workers=14):
+    import multiprocessing as mp
+    if len(texts) < 24:
+        return [symbols_repr(t) for t in texts]
+    compile_text('A warmupconcept is identified by an id.')
+    with mp.get_context('fork').Pool(workers) as pool:
+        return pool.map(symbols_repr, texts, chunksize=8)
